@@ -83,10 +83,12 @@ FFT_Processor_fftw::~FFT_Processor_fftw() {
     TFHE_VERIF_EVENT("ProcDtor", this, rev_in, 0, 0);
     {
     std::lock_guard<std::mutex> lock(fftw_planner_mutex());
+    TFHE_VERIF_EVENT("LockAcq", this, 0, 0, 0);
     TFHE_VERIF_EVENT("PlanDestroy", this, 0, 0, 0);
     fftw_destroy_plan(p);
     fftw_destroy_plan(rev_p);
     TFHE_VERIF_EVENT("PlanDestroyed", this, 0, 0, 0);
+    TFHE_VERIF_EVENT("LockRel", this, 0, 0, 0);
     }
     fftw_free(in); fftw_free(rev_out);	
     free(rev_in); free(out);
